@@ -423,7 +423,10 @@ Definition flat_row (rd : reader) (gs : gens) (fl : flags) (s : Z) (r : row) : r
 Definition lmin (l : list Z) : Z := fold_right Z.min (hd 0 l) l.
 Definition lmax (l : list Z) : Z := fold_right Z.max (hd 0 l) l.
 (* dataset_t::check(samples) *)
-Definition check_samples (n : Z) (samples : list Z) : bool := negb (src_check_samples_bad (lmin samples) (lmax samples) n).
+(* repo 2030fc5: the empty list is accepted before min()/max() are taken (they do not exist for it) *)
+Definition check_samples (n : Z) (samples : list Z) : bool :=
+  if src_check_samples_empty (Z.of_nat (length samples)) then true
+  else negb (src_check_samples_bad (lmin samples) (lmax samples) n).
 
 (* dataset_t::flatten on a fresh (all-NaN) buffer; None = exception *)
 Definition flatten (rd : reader) (n : Z) (gs : gens) (fl : flags) (samples : list Z) : option (list row) :=
